@@ -4,6 +4,7 @@ import (
 	"bytes"
 	"encoding/json"
 	"fmt"
+	"reflect"
 	"strings"
 	"testing"
 	"unicode/utf8"
@@ -233,7 +234,18 @@ func checkTxJSON(tx *gobinlog.Transaction) error {
 		return fmt.Errorf("MarshalJSON failed: %v", err)
 	}
 	if !bytes.Equal(direct, out) {
-		return fmt.Errorf("MarshalJSON() and json.Marshal disagree: %.200s vs %.200s", direct, out)
+		// not necessarily the same bytes (encoding/json re-indents and re-escapes what a Marshaler returns,
+		// e.g. '<' as \u003c): the same document
+		if !json.Valid(direct) || !utf8.Valid(direct) {
+			return fmt.Errorf("MarshalJSON() returned something that is not valid UTF-8 JSON: %.300q", direct)
+		}
+		var a, b interface{}
+		da, db := json.NewDecoder(bytes.NewReader(direct)), json.NewDecoder(bytes.NewReader(out))
+		da.UseNumber()
+		db.UseNumber()
+		if ea, eb := da.Decode(&a), db.Decode(&b); ea != nil || eb != nil || !reflect.DeepEqual(a, b) {
+			return fmt.Errorf("MarshalJSON() and json.Marshal disagree: %.200s vs %.200s", direct, out)
+		}
 	}
 	for i := range retainedJSON {
 		r := &retainedJSON[i]
